@@ -38,7 +38,7 @@ LEVEL = {
     "C11": ("Theorems (complete modulo the recorded finding D1): for all 12 units on Date and Timestamp rounding = truncation or the next boundary, boundaries fixed, later boundary chosen exactly from the documented midpoint, monotone except ISO year, fails ⇔ chosen boundary after the maximum; Oracle = timestamp then floor. "
             "round_century on years ≡ 0 mod 100 is excluded by hypothesis and characterised exactly (known finding D1); Sunday-week rounding before 0001-01-04 is stated as a counterexample theorem (D9). "
             "Tie: as C10 for round_* (exhaustive on dates); crate vs Spec."),
-    "C12": ("Theorems (complete, omega): add/sub_interval_dt = (t ± i) mod 24h for every valid time and EVERY integer interval, result valid, add then sub cancels, whole days neutral, sub_time exact and a valid interval, Time::from(interval) = |i| mod 24h, mixed comparisons = comparison of µs counts. "
+    "C12": ("Theorems (complete, omega): add/sub_interval_dt = (t ± i) mod 24h for every valid time and EVERY integer interval, result valid, add then sub cancels, whole days neutral, sub_time exact and a valid interval, Time::from(interval) = |i| mod 24h. Mixed Time/IntervalDT comparisons are comparison of µs counts by definition in the model (no theorem; decided by the correspondence stream). "
             "Tie: all 86,400 seconds × 12+ boundary/random intervals, pools crossed for the mixed comparisons."),
     "C13": ("Theorems (complete): sign/field decomposition with ranges and uniqueness, constructors = classify for all u32 tuples with error order, is_valid ⇔, extract∘ctor = id, negation involutive and range-preserving, signed accessors = sign × field, second() correctly rounded. "
             "Tie: year-month values strided + 300k contiguous at the ends and zero, day-time every second within ±2 days and powers of ten, dense µs sweeps, constructor grids."),
@@ -51,7 +51,7 @@ LEVEL = {
             "Tie: all dates × 3 times × 5 sub-second parts for conversions, every OD op × pools, 20k fractional day offsets incl. half-second ties."),
     "C17": ("Theorems (complete on the model): truncation AND rounding through Timestamp at a date's midnight = Date truncation/rounding at midnight for all 12 units (errors included); Oracle ops = timestamp op then floor; last_day/add-months agree through Date and Timestamp; midnight is an order embedding (all mixed comparisons, both argument orders). "
             "Tie: all dates × 12 units × trunc/round through all three types, mixed comparisons and shared ops (incl. differences) × pools."),
-    "C18": ("Theorems (clock is a parameter): now()/TryFrom<Time> = the clock's fields; for ANY picture without 1–3-digit year fields whose text supplies year and month, `parse` is the same under every two clocks (general theorem); Y/YYY completion = year − year mod 10^n + digits; YY rule with digits-only counting; defaults day 1 / time 0 / 12 for HH12. "
+    "C18": ("Theorems (clock is a parameter): now()/TryFrom<Time> = the clock's fields; for ANY picture without 1–3-digit year fields whose text supplies year and month, `parse` is the same under every two clocks (general theorem); Y/YYY completion = year − year mod 10^n + digits; YY rule with digits-only counting; defaults day 1 / time 0 (the HH12 default 12 is in the model's field rule, exercised by the correspondence stream). "
             "Tie: clock hook — every 8th..204th local date as 'today' × 36 (type,text,picture) cases, now/from_time under pool clocks, 20k generated texts under random clocks with the clock-read counter compared."),
     "C19": ("Theorems (complete): Formatter::try_new = generic maximal-munch tokenizer over the documented 41-entry token table for EVERY byte string (same accept/reject, fields, styles, blank-run lengths; single FF0 exception where both reject one step apart); ≤ 36 tokens; only error InvalidFormat; blank run of n renders n blanks. "
             "Tie: all 2.6M pictures up to length 4 (thorough: 5) over a 40-symbol alphabet with the compiled field list compared, random token sequences, blank runs to 600; crate vs independent Lean munch (`--spec`)."),
